@@ -5,6 +5,8 @@ import (
 	"go/ast"
 	"go/parser"
 	"go/token"
+	"os"
+	"path/filepath"
 	"sort"
 	"strconv"
 	"strings"
@@ -178,6 +180,72 @@ func valueTable() string {
 	return "[" + strings.Join(items, "; ") + "]"
 }
 
+// handleStart: the parameters of server.handle and its statements up to the filter: how the
+// context of a connection is created and which connections start authenticated.
+func handleStart() string {
+	f, fd := funcDecl("bus/server.go", "server", "handle")
+	if fd == nil {
+		return "<missing>"
+	}
+	parts := []string{exprText(f.fset, fd.Type)}
+	found := false
+	for _, st := range fd.Body.List {
+		if as, ok := st.(*ast.AssignStmt); ok && len(as.Lhs) == 1 {
+			if id, ok := as.Lhs[0].(*ast.Ident); ok && id.Name == "filter" {
+				found = true
+				break
+			}
+		}
+		parts = append(parts, exprText(f.fset, st))
+	}
+	if !found {
+		return "<no filter>"
+	}
+	return strings.Join(strings.Fields(strings.Join(parts, " ; ")), " ")
+}
+
+// handleCallers: every call `x.handle(a, b)` in the non-test files of package bus, as
+// "<enclosing function>:<b>", sorted: who hands a stream to the server and with which flag.
+func handleCallers() string {
+	ents, err := os.ReadDir(filepath.Join(repo, "bus"))
+	if err != nil {
+		return "[]"
+	}
+	var items []string
+	for _, e := range ents {
+		n := e.Name()
+		if e.IsDir() || !strings.HasSuffix(n, ".go") || strings.HasSuffix(n, "_test.go") {
+			continue
+		}
+		f := load("bus/" + n)
+		if f == nil {
+			continue
+		}
+		for _, d := range f.f.Decls {
+			fd, ok := d.(*ast.FuncDecl)
+			if !ok || fd.Body == nil {
+				continue
+			}
+			ast.Inspect(fd.Body, func(m ast.Node) bool {
+				ce, ok := m.(*ast.CallExpr)
+				if !ok {
+					return true
+				}
+				if se, ok := ce.Fun.(*ast.SelectorExpr); ok && se.Sel.Name == "handle" {
+					arg := "<none>"
+					if len(ce.Args) == 2 {
+						arg = exprText(f.fset, ce.Args[1])
+					}
+					items = append(items, fmt.Sprintf("\"%s\"%%string", coqEscape(fd.Name.Name+":"+arg)))
+				}
+				return true
+			})
+		}
+	}
+	sort.Strings(items)
+	return "[" + strings.Join(items, "; ") + "]"
+}
+
 func emitNList(name string, vs []uint64) {
 	it := make([]string, len(vs))
 	for i, v := range vs {
@@ -204,6 +272,10 @@ func factsC06() {
 	fmt.Fprintf(&out, "Definition f_c06_value_table : list (string * string) := %s.\n", valueTable())
 	emitStr("f_c06_firewall_text", normText("bus/server.go", "", "firewall"))
 	emitStr("f_c06_consumer_text", goFuncLitText("bus/server.go", "server", "handle"))
+	emitStr("f_c06_handle_start_text", handleStart())
+	emitStr("f_c06_accept_text", normText("bus/server.go", "server", "run"))
+	fmt.Fprintf(&out, "Definition f_c06_handle_callers : list string := %s.\n", handleCallers())
+	emitStr("f_c06_local_client_text", normText("bus/server.go", "server", "Client"))
 	emitStr("f_c06_router_receive_text", normText("bus/router.go", "Router", "Receive"))
 	emitStr("f_c06_service_receive_text", normText("bus/service.go", "serviceImpl", "Receive"))
 	emitStr("f_c06_mailbox_text", normText("bus/mailbox.go", "", "NewMailBox"))
